@@ -161,6 +161,19 @@ def _work(ctx: Ctx, item):
             ctx.hyp(one, strat, max_examples=3 * len(drawn), name="sweep-drawn")
         ctx.hyp(one, gen.payloads(d, mode="any"), max_examples=n_any, name="any")
         ctx.hyp(one, gen.payloads(d, mode="accepted"), max_examples=n_acc, name="accepted")
+        if d.matches:
+            # systematic: every one-bit neighbour of every match value (others own, rest benign)
+            for f in d.fields:
+                if f.match is None or f.index not in pos:
+                    continue
+                m = ((1 << f.bits) - 1) << pos[f.index]
+                for b in range(f.bits):
+                    ctx.klass("class:match_bitflip")
+                    for bk, w, c in one(((bp & ~m) | ((f.match ^ (1 << b)) << pos[f.index]), bn, ["match_bitflip"])):
+                        ctx.report(bk, w, c)
+        if d.matches:
+            # payloads next to this definition in match space: the returned message must name the definition the database rule selects
+            ctx.hyp(one, gen.payloads(d, mode="accepted", pin_match=False), max_examples=max(n_acc, 30), name="match-neighbours")
         if d.index % 40 == 0:
             p = gen.benign_payload(d)
             ctx.sample({"definition": key, "benign_payload_hex": p[0].to_bytes(p[1], "little").hex(), "fields": len(d.fields)})
